@@ -97,6 +97,56 @@ def call_model(ex, fn: Term, args: List[Term], kwargs: Dict[str, Term], st: Stat
     raise Unsupported("call of %s at line %d" % (show(fn, 3), getattr(node, "lineno", 0)))
 
 
+def unsnap_(t: Term) -> Term:
+    while t.op == "snap":
+        t = t.args[0]
+    return t
+
+
+def _term_lt(a: Term, b: Term):
+    """a < b for terms whose order is decided by constant components (tuples compare element-wise); None when undecided;
+    raises TypeError like Python when the deciding pair is not orderable"""
+    if a is b:
+        return False
+    if is_const(a) and is_const(b):
+        return cval(a) < cval(b)
+    ta = a.args[0] if a.op == "tuple" else (tuple(C(x) for x in cval(a)) if is_const(a) and isinstance(cval(a), tuple) else None)
+    tb = b.args[0] if b.op == "tuple" else (tuple(C(x) for x in cval(b)) if is_const(b) and isinstance(cval(b), tuple) else None)
+    if ta is None or tb is None:
+        return None
+    for x, y in zip(ta, tb):
+        if x is y:
+            continue
+        if is_const(x) and is_const(y):
+            if cval(x) == cval(y):
+                continue
+            return cval(x) < cval(y)
+        return None
+    return len(ta) < len(tb)
+
+
+def _term_sort(ex, o, st, node) -> bool:
+    """sort an exact list in place when every comparison needed is decided by constants (insertion sort, stable)"""
+    items = list(o.items)
+    out = []
+    try:
+        for it in items:
+            pos = len(out)
+            while pos > 0:
+                lt = _term_lt(it, out[pos - 1])
+                if lt is None:
+                    return False
+                if not lt:
+                    break
+                pos -= 1
+            out.insert(pos, it)
+    except TypeError:
+        ex.emit("raise", node, st, exc="TypeError", exc_term=mk("builtin", "TypeError"), args=(), reraise=False, implicit=True, construct="sort of items that are not orderable")
+        raise PathDead()
+    o.items = out
+    return True
+
+
 def _concrete_bytesio(ex, recv, name, args, kwargs, st, node):
     """io.BytesIO over a byte string of known length (symbolic contents): buffer and position are tracked exactly"""
     from .exprs import sb_items, sbytes
@@ -322,6 +372,13 @@ def call_builtin(ex, name: str, args, kwargs, st: State, node) -> Term:
             items = ex.iter_items(A[0], st)
             if items is not None and len(items) <= 1:
                 return ex.new_list(st, items)
+            if items is not None and ex.sym_bytes and set(kwargs) <= {"key"}:
+                # concrete-control scenarios: sort by keys that evaluate to constants (stable, like sorted())
+                keys = [ex.call(kwargs["key"], [it], {}, st, node) for it in items] if "key" in kwargs else list(items)
+                tmp = ex.new_list(st, [mk("tuple", (k, C(i))) for i, k in enumerate(keys)])
+                if _term_sort(ex, ex.obj(st, tmp), st, node):
+                    order = [cval(unsnap_(t).args[0][1]) for t in ex.obj(st, tmp).items]
+                    return ex.new_list(st, [items[i] for i in order])
         res = mk("call", mk("builtin", name), tuple(A), tuple(sorted(kwargs.items())), 0)
         ex.emit("extcall", node, st, name=name, recv=None, args=tuple(A), kwargs=dict(kwargs), result=res, pure=True)
         if name == "map" and A and A[0].op in ("func", "closure", "bound", "class", "builtin"):
@@ -372,6 +429,16 @@ def call_builtin(ex, name: str, args, kwargs, st: State, node) -> Term:
             return mk("builtin", type(cval(A[0])).__name__)
         return mk("typeof", A[0])
     if name == "getattr" and n >= 2 and is_const(A[1]):
+        if n == 3 and ex.sym_bytes:
+            mark = len(ex.trace)
+            try:
+                return ex.get_attr(A[0], cval(A[1]), st, node)
+            except PathDead:
+                if ex._dead is not None and str(ex._dead[1]) == "AttributeError":
+                    del ex.trace[mark:]  # getattr(obj, name, default) swallows exactly this
+                    ex._dead = None
+                    return A[2]
+                raise
         return ex.get_attr(A[0], cval(A[1]), st, node)
     if name == "hasattr" and n == 2:
         return mk("call", mk("builtin", name), tuple(A), (), 0)
@@ -387,6 +454,16 @@ def call_builtin(ex, name: str, args, kwargs, st: State, node) -> Term:
         return res
     if name in ("iter",) and n == 1:
         return A[0]
+    if name == "next" and ex.sym_bytes and A:
+        # concrete-control scenarios: the first element of a freshly built generator / list with known elements
+        its = ex.iter_items(A[0], st)
+        if its is not None:
+            if its:
+                return its[0]
+            if n > 1:
+                return A[1]
+            ex.emit("raise", node, st, exc="StopIteration", exc_term=mk("builtin", "StopIteration"), args=(), reraise=False, implicit=True, construct="next() of an empty iterator")
+            raise PathDead()
     if name in ("next", "__next__"):
         evt = fresh_uid()
         res = mk("call", mk("builtin", "next"), tuple(A), (), evt)
@@ -613,6 +690,8 @@ def call_bmeth(ex, recv: Term, name: str, args, kwargs, st: State, node) -> Term
             elif name == "reverse" and o.exact and not inexact:
                 o.items.reverse()
             elif name == "sort" and o.exact and len(o.items) <= 1:
+                pass
+            elif name == "sort" and o.exact and not inexact and ex.sym_bytes and not kwargs and _term_sort(ex, o, st, node):
                 pass
             else:
                 _weaken_list(o)
